@@ -76,6 +76,11 @@ def readUInt (n : Nat) (st : St) : R Nat :=
 def toSigned (bytes : Nat) (v : Nat) : Int :=
   if v ≥ 2 ^ (8 * bytes - 1) then (v : Int) - (2 : Int) ^ (8 * bytes) else v
 
+/-- readTimestamp: seconds whose year falls outside [0, 9999] (what Time.MarshalJSON accepts)
+    are reported as the zero time -/
+def clampTime (sec : Int) : Int :=
+  if sec < -62167219200 ∨ sec > 253402300799 then -62135596800 else sec
+
 /-- table field values -/
 inductive FVal where
   | bool (b : Bool)
@@ -165,7 +170,7 @@ mutual
         else if typ = 84 then   -- 'T'
           match readUInt 8 st with
           | .error e => .error e
-          | .ok (v, st) => .ok (.time (toSigned 8 v), st)
+          | .ok (v, st) => .ok (.time (clampTime (toSigned 8 v)), st)
         else if typ = 70 then   -- 'F'
           match readTable fuel st with
           | .error e => .error e
@@ -238,7 +243,7 @@ def readKind (fuel : Nat) (name : String) (k : Kind) (st : St) : R (List (String
   | .shortstr => (readShortStr st).map fun (s, st) => ([(name, .str s)], st)
   | .longstr => (readLongStr st).map fun (s, st) => ([(name, .str s)], st)
   | .table => (readTable fuel st).map fun (t, st) => ([(name, .table t)], st)
-  | .timestamp => (readUInt 8 st).map fun (v, st) => ([(name, .time (toSigned 8 v))], st)
+  | .timestamp => (readUInt 8 st).map fun (v, st) => ([(name, .time (clampTime (toSigned 8 v)))], st)
   | .bits names => (readUInt 1 st).map fun (v, st) => (names.zipIdx.map fun (n, i) => (n, .flag (bit v i)), st)
 
 def readArgs (fuel : Nat) : List (String × Kind) → St → R (List (String × AVal))
